@@ -252,6 +252,7 @@ _ERASE = [
     r"^<.* as std::convert::From<.*>>::from$",
     r"^<.* as std::convert::Into<.*>>::into$",
     r"^<.* as std::iter::IntoIterator>::into_iter$",
+    r"^<std::vec::IntoIter<(.*)> as std::iter::Iterator>::collect::<std::vec::Vec<\1>>$",  # v.into_iter().collect::<Vec<_>>() is v
     r"^std::vec::Vec::<.*>::as_slice$",
     r"^(?:std|core|alloc)::slice::<impl \[.*\]>::to_vec$",
     r"^(?:std|core)::slice::<impl \[.*\]>::iter$",
@@ -402,12 +403,49 @@ def rust_unescape(s):
 # ------------------------------------------------------------------ evaluation
 
 
+def _outer(e):
+    """An expression of the function that creates a closure, as seen from inside the closure: its arguments and
+    unknowns are marked (shown with ^) so that they are not taken for the closure's own."""
+    if not isinstance(e, tuple):
+        return e
+    if e and e[0] == "arg":
+        return ("outerarg", e[1])
+    if e and e[0] in ("var", "argvar", "local", "uninit"):
+        return ("outervar", e[0], e[1])
+    return tuple(_outer(x) if isinstance(x, tuple) else x for x in e)
+
+
+_CAPTURES = {}
+
+
 class Evaluator:
     """Evaluates operands/rvalues to expressions given a local-lookup function."""
 
     def __init__(self, body, facts=None):
         self.body = body
         self.facts = facts
+
+    def _capture(self, i):
+        """The value a closure captured in slot i: the operand the creating function put there (the capture order
+        is an accident of which variables the closure body mentions first)."""
+        key = (id(self.facts), self.body.path)
+        if key not in _CAPTURES:
+            _CAPTURES[key] = None
+            path = self.body.path
+            if "::{closure#" in path:
+                parent = self.facts.body(path.rsplit("::{closure#", 1)[0])
+                if parent is not None:
+                    sites = [st["rv"] for blk in parent.blocks if not blk["cleanup"] for st in blk["stmts"] if st["k"] == "assign" and st["rv"].get("k") == "agg" and st["rv"].get("agg") == "closure" and strip_lt(st["rv"]["def"]) == path]
+                    if len(sites) == 1:
+                        se = StaticEnv(parent, self.facts)
+                        try:
+                            _CAPTURES[key] = [_outer(se.operand(op)) for op in sites[0]["fields"]]
+                        except Exception:
+                            _CAPTURES[key] = None
+        caps = _CAPTURES[key]
+        if caps is None or i >= len(caps):
+            return None
+        return caps[i]
 
     def const_op(self, o):
         if "fn" in o:
@@ -524,6 +562,11 @@ class Evaluator:
                         a = v[1]
                         if e["i"] < len(a[4]):
                             v = a[4][e["i"]]
+                            continue
+                    if v == ("arg", 1) and adt == "" and getattr(self.body, "kind", None) == "Closure" and self.facts is not None:
+                        cv = self._capture(e["i"])
+                        if cv is not None:
+                            v = cv
                             continue
                     v = ("field", v, name)
                     continue
@@ -713,6 +756,10 @@ def show(e):
     k = e[0]
     if k == "arg":
         return "a%d" % e[1]
+    if k == "outerarg":
+        return "^a%d" % e[1]
+    if k == "outervar":
+        return "^v"
     if k == "argvar":
         return "a%d" % e[1]
     if k == "mut":
